@@ -157,16 +157,31 @@ def render_type(t):
     return base
 
 
-def _render_attrs(f, ind, out):
-    if f.byte_order:
-        out.append('%s[byte_order: "%s"]' % (ind, f.byte_order))
+_EXPLICIT_ORDER = [None]  # module byte order to spell out per field while rendering a module without $default
+
+
+def _order_dependent(t):
+    while t is not None and t.kind == "array":
+        t = t.elem
+    return t is not None and (t.kind in ("uint", "int", "bcd", "float", "enum") or (t.kind == "struct" and t.ref.kind == "bits"))
+
+
+def _render_attrs(f, ind, out, in_struct=False):
+    order = f.byte_order
+    if order is None and _EXPLICIT_ORDER[0] and in_struct and f.kind == "phys" and _order_dependent(f.type):
+        # no module default: every field that needs a byte order names it; exactly-one-byte scalars need none and
+        # are left bare (they are read through the runtime's NullByteOrderer)
+        if not (f.type.kind != "array" and f.size == ("num", 1)):
+            order = _EXPLICIT_ORDER[0]
+    if order:
+        out.append('%s[byte_order: "%s"]' % (ind, order))
     if f.requires is not None:
         out.append("%s[requires: %s]" % (ind, render_expr(f.requires)))
     if f.text_output:
         out.append('%s[text_output: "%s"]' % (ind, f.text_output))
 
 
-def _render_field(f, ind, out):
+def _render_field(f, ind, out, in_struct=False):
     if f.cond is not None:
         out.append("%sif %s:" % (ind, render_expr(f.cond)))
         ind += "  "
@@ -182,7 +197,7 @@ def _render_field(f, ind, out):
         return
     name = f.name + (" (%s)" % f.abbrev if f.abbrev else "")
     out.append("%s%s  %s  %s" % (ind, loc, render_type(f.type), name))
-    _render_attrs(f, ind + "  ", out)
+    _render_attrs(f, ind + "  ", out, in_struct)
 
 
 def render_struct(s):
@@ -202,7 +217,7 @@ def render_struct(s):
     if not s.fields:
         out.append("  -- empty")
     for f in s.fields:
-        _render_field(f, "  ", out)
+        _render_field(f, "  ", out, s.kind == "struct")
     return out
 
 
@@ -218,7 +233,20 @@ def render_enum(e):
 
 
 def render_module(m):
-    out = ['[$default byte_order: "%s"]' % m.byte_order]
+    # A module may leave out `$default byte_order` when every field that needs one carries it (same meaning, other
+    # code path: one-byte fields then use the Null byte order).  Multi-byte anonymous bits blocks cannot carry the
+    # attribute in this renderer, so such modules keep the default.
+    omit = getattr(m, "omit_default_order", False) and not any(
+        f.kind == "anon" and f.size != ("num", 1) for s in m.structs for f in s.fields)
+    out = [] if omit else ['[$default byte_order: "%s"]' % m.byte_order]
+    _EXPLICIT_ORDER[0] = m.byte_order if omit else None
+    try:
+        return _render_module_body(m, out)
+    finally:
+        _EXPLICIT_ORDER[0] = None
+
+
+def _render_module_body(m, out):
     if m.namespace:
         out.append('[(cpp) namespace: "%s"]' % m.namespace)
     out.append("")
